@@ -877,6 +877,40 @@ func main() {
 		}
 	}
 
+	// 2b. every assigned record type in turn (a codec must not special-case one), and messages made
+	// almost only of minimal records (root owner, no RDATA: 11 octets each) in every section
+	wellKnown := []uint16{1, 2, 5, 6, 12, 13, 15, 16, 17, 18, 24, 25, 28, 29, 33, 35, 36, 37, 39, 41, 42, 43, 44, 45, 46, 47, 48, 50, 51, 52, 55, 59, 60, 61, 64, 65, 99, 249, 250, 251, 252, 253, 254, 255, 256, 257, 32768, 32769}
+	trng := r.Rand("types")
+	for ti, ty := range wellKnown {
+		for _, cl := range []uint16{1, 3, 4, 254, 255} {
+			m := genMsg(trng, 1, 2, 1, 1, false)
+			m.Q[0].Type, m.Q[0].Class = ty, cl
+			for _, sec := range [][]RRR{m.An, m.Ns, m.Ar} {
+				for k := range sec {
+					sec[k].Type, sec[k].Class = ty, cl
+				}
+			}
+			run(m, 1000000+ti)
+			reverse(m, Comp{On: true, Prob: 0.5, Rng: crng}, "types")
+		}
+	}
+	for _, counts := range [][4]int{{0, 1, 0, 0}, {0, 0, 1, 0}, {0, 0, 0, 1}, {1, 1, 1, 1}, {0, 8, 0, 0}, {1, 6, 6, 6}, {0, 40, 40, 40}, {2, 0, 0, 30}} {
+		m := &RMsg{ID: 0x4d4d, Flags: 0x8000}
+		for i := 0; i < counts[0]; i++ {
+			m.Q = append(m.Q, RQ{Name{}, 1, 1})
+		}
+		mk := func(n int) []RRR {
+			var out []RRR
+			for i := 0; i < n; i++ {
+				out = append(out, RRR{Name{}, uint16(1 + i%3), 1, uint32(i), nil})
+			}
+			return out
+		}
+		m.An, m.Ns, m.Ar = mk(counts[1]), mk(counts[2]), mk(counts[3])
+		run(m, 2000000)
+		reverse(m, Comp{}, "minimal")
+	}
+
 	// 3. Add* builders
 	brng := r.Rand("builders")
 	ipSets := [][]string{{"192.168.1.1"}, {"fe80::1"}, {"0.0.0.0", "255.255.255.255", "::", "ffff:ffff:ffff:ffff:ffff:ffff:ffff:ffff"}, {"10.0.0.1", "2001:db8::1"}, nil}
